@@ -20,7 +20,7 @@ from vlib import Run, zlit, qlit, fhex, coq_list, coq_opt, coq_bool, coq_string
 
 warnings.simplefilter("ignore")
 
-IMPORTS = "From Coq Require Import QArith PrimFloat.\nFrom V Require Import Generated.CalTrackTables Model.CalTrack Model.CalTrackRun Model.CalTrackFit Model.CalTrackFitRun."
+IMPORTS = "From Coq Require Import QArith PrimFloat.\nFrom V Require Import Generated.CalTrackTables Model.CalTrack Model.CalTrackRun Model.CalTrackFit Model.CalTrackFitRun Model.CalTrackPredict."
 ZONES = ["UTC", "US/Pacific", "Europe/Berlin", "Australia/Sydney", "Asia/Kolkata", "America/Sao_Paulo"]
 ZONES_THOROUGH = ZONES + ["America/St_Johns", "Pacific/Auckland", "Africa/Cairo", "Asia/Tokyo", "America/Havana", "Pacific/Chatham"]
 YEARS = [2023, 2024]          # a non-leap and a leap year
@@ -1347,7 +1347,8 @@ def stream_fit(run, seed):
 # ------------------------------------------------------------------ main
 
 PROP = "Properties/C18.v"
-PROOFS = ["Proofs/CalTrackProofs.v", "Proofs/CalTrackTableProofs.v", "Proofs/CalTrackFitProofs.v", "Proofs/CalTrackFitTableProofs.v"]
+PROOFS = ["Proofs/CalTrackProofs.v", "Proofs/CalTrackTableProofs.v", "Proofs/CalTrackFitProofs.v", "Proofs/CalTrackFitTableProofs.v",
+          "Proofs/CalTrackPredictProofs.v"]
 TABLE_FREE = ["Proofs/CalTrackProofs.v", "Proofs/CalTrackFitProofs.v"]
 
 
@@ -1448,7 +1449,9 @@ def main():
         "temperature; region histogram in `distribution`); how: compute_time_features on every hour of both years per zone "
         "(distinct = zone, year, weekday, hour); occupancy: both feature processors on random lookups / endpoint subsets / "
         "temperatures (non-trivial = finite temperature); routing: CalTRACKHourlyModel.predict with twelve synthetic segment "
-        "models of value 2^k on every hour of both years per zone; routing_partial: the same over random stretches of 1-130 days "
+        "models of value 2^k on every hour of both years per zone; predict_value: CalTRACKHourlyModel.predict with random dyadic segment parameters, occupancy lookups, keep-flags and temperatures over "
+        "30-120 hours, some across a month end, segment models absent / parameterless / without some hour-of-week parameter "
+        "(distinct = seed x hour; non-trivial = a finite value is expected); routing_partial: the same over random stretches of 1-130 days "
         "(zero-weight columns dropped) with 0-4 segment models absent (distinct = seed x month); fit: one fitted wrapper model "
         "(weights held by each WLS object vs its segmentation column on every hour, (n, n') filed per month by the wrapper), "
         "every segment model shifted by 1000*2^k, every hour of 2024" % len(ZONES))
@@ -1470,7 +1473,9 @@ def main():
         "harness/c18.py (generators, adapters, canonicalisation, oracle)",
         "the reading of `index.month == n`, `i in months`, `weights.get(str(i), d)` as lookup_month in Model/CalTrack.v, "
         "pandas reindex/fill/merge semantics re-specified in bin_features / feature_row — tied by the correspondence only",
-        "statsmodels WLS / patsy design matrices (fit stream) are not modelled; only the routing of their predictions is observed",
+        "statsmodels WLS (the fit) is not modelled; patsy's design matrix at predict time is re-specified as one hour-of-week dummy "
+        "plus the bin columns (Model/CalTrackPredict.v segment_predict), tied by the predict_value correspondence on inputs for "
+        "which binary64 products and sums are exact",
     ]
     # step 0: translator
     ex = None
